@@ -462,6 +462,9 @@ func c10Gen(r *Rng, tier string, idx int) (string, func() string) {
 		return "src udp opens 1 sched udpFail", func() string { return lcUDPFail(idx, false) }
 	case idx == 1:
 		return "src udp opens 1 sched udpBusy", func() string { return lcUDPFail(idx, true) }
+	case idx == 170 || (tier == "thorough" && idx%149 == 11):
+		variant := idx % 2
+		return fmt.Sprintf("src abaco opens 1 sched udpBad variant %d", variant), func() string { return lcUDPBad(idx, variant) }
 	case idx == 60 || idx == 100 || (tier == "thorough" && idx%53 == 9):
 		// configure-error histories on the Lancero source: every failing Configure is eventually followed by a
 		// valid one and a Start that must succeed
